@@ -11,6 +11,7 @@ import (
 	"fmt"
 	"io"
 	"net"
+	"os"
 	"syscall"
 	"time"
 
@@ -42,6 +43,7 @@ const (
 	Stall          // the operation never completes (until local close / cancel)
 	Reset          // the connection is reset now
 	EOF            // the peer's direction is closed now (reads see EOF)
+	Timeout        // a write: half of the bytes leave, then the call fails with a deadline error; the connection stays usable
 )
 
 // Op describes one I/O operation of an endpoint to a fault hook.
@@ -372,6 +374,20 @@ func (e *Endpoint) Write(p []byte) (int, error) {
 		e.n.mu.Unlock()
 	case Stall:
 		s.Fault("stall-write")
+	case Timeout:
+		// what a write deadline does on a socket whose buffer is full: part of the data is
+		// out, the call reports a timeout, and nothing is closed
+		s.Fault("write-timeout")
+		s.Park("W:"+e.Name, writeWait{e, false})
+		e.n.mu.Lock()
+		k := len(p) / 2
+		if !e.closed && !e.out.reset && !e.out.wclosed && !e.peer.closed {
+			e.deliver(p[:k])
+		} else {
+			k = 0
+		}
+		e.n.mu.Unlock()
+		return k, opErr("write", os.ErrDeadlineExceeded)
 	}
 	done := 0
 	for {
